@@ -17,7 +17,7 @@ from ..model import AnalysisError, Model
 from ..monomial import Denoter, Mono
 from ..report import Report
 from ..setalg import SetAlg, compare, f_and, f_not, f_or, show_formula, show_row, atoms_of
-from ..symeval import Evaluator, State
+from ..symeval import Evaluator, dnf_paths, State
 from ..terms import EMPTY, NONE, TRUE, Term, const, has_unknown, show, subst, subterms, var
 from .common import construct, loc, raise_paths, return_paths, short, typed, exc_name
 from .dslcommon import ATOMIC, DSL, DSL_PRIMS, EXPR, classes_consistent, concrete_expression_classes, kind_of, mentions
@@ -69,7 +69,7 @@ def r13_1(model: Model, rep: Report, classes) -> None:
             slf = typed(ev, "self", ("cls", K.qname))
             oth = typed(ev, f.params[1], ("cls", EXPR))
             try:
-                paths = ev.run(f, {f.params[1]: oth}, self_term=slf)
+                paths = dnf_paths(ev.run(f, {f.params[1]: oth}, self_term=slf))
             except Exception as e:  # noqa: BLE001
                 rep.unknown("R13.1", construct(f, f"{K.name}"), f"evaluator failed: {e}", loc(f))
                 continue
@@ -140,48 +140,64 @@ def r13_1(model: Model, rep: Report, classes) -> None:
 
 # ------------------------------------------------------------------------------------------- R13.1b
 def r13_1b(model: Model, rep: Report) -> None:
-    # Product.safe: drops One, absorbs Zero, otherwise a permutation of the factors
+    # Product.safe: drops One, absorbs Zero, otherwise a permutation of the factors.
+    # Decided by small-scope symbolic evaluation: the factor list is a literal of k <= 3 symbolic factors, each of a known class
+    # (One / Zero / Probability / Sum); the evaluator unrolls loops and comprehensions over the literal and folds ==, isinstance, any,
+    # len, truthiness by class, so every syntactic form of the routine (comprehension + any, explicit loop with a flag, in-place sort,
+    # merged returns) reduces to one outcome per configuration, compared with the definition.  4^0 + ... + 4^3 = 85 configurations.
+    import itertools
     f = model.func(f"{DSL}.Product.safe")
-    ev = Evaluator(model)
-    E = typed(ev, "expressions", ("iter", ("cls", EXPR)))
-    paths = ev.run(f, {"expressions": E}, self_term=("ref", f"{DSL}.Product"))
-    sa = SetAlg()
+    KINDS = ("One", "Zero", "Probability", "Sum")
     problems = []
+    n_cfg = 0
+    undecided = 0
+    for k in range(0, 4):
+        for cfg in itertools.product(KINDS, repeat=k):
+            n_cfg += 1
+            ev = Evaluator(model)
+            els = [typed(ev, f"e{i}", ("cls", f"{DSL}.{c}")) for i, c in enumerate(cfg)]
+            try:
+                ps = dnf_paths(ev.run(f, {"expressions": ("listlit", tuple(els))}, self_term=("ref", f"{DSL}.Product")))
+            except Exception as e:  # noqa: BLE001
+                undecided += 1
+                continue
+            ps = [p_ for p_ in ps if not ev.infeasible(p_.conds)]
+            if len(ps) != 1 or ps[0].conds or has_unknown(ps[0].value):
+                undecided += 1
+                continue
+            p_ = ps[0]
+            nonunit = [e for e, c in zip(els, cfg) if c != "One"]
+            label = "Product.safe([" + ", ".join(cfg) + "])"
+            if p_.kind != "return":
+                problems.append(f"{label} raises {exc_name(p_)}")
+                continue
+            v = p_.value
+            if "Zero" in cfg:
+                if not is_ctor(v, "Zero"):
+                    problems.append(f"{label} is {short(show(v), 80)}, must be Zero()")
+            elif not nonunit:
+                if not is_ctor(v, "One"):
+                    problems.append(f"{label} is {short(show(v), 80)}, must be One()")
+            elif len(nonunit) == 1:
+                if v != nonunit[0]:
+                    problems.append(f"{label} is {short(show(v), 80)}, must be the single non-unit factor")
+            else:
+                ok = is_ctor(v, "Product")
+                if ok:
+                    seq = dict(v[2]).get("expressions") if v[0] == "rec" else dict(v[3]).get("expressions")
+                    while seq is not None and seq[0] == "call" and seq[1] in ("tuple", "list", "sorted") and len(seq[2]) == 1:
+                        seq = seq[2][0]
+                    ok = seq is not None and seq[0] in ("listlit", "tuplelit") and sorted(map(repr, seq[1])) == sorted(map(repr, nonunit))
+                if not ok:
+                    problems.append(f"{label} is {short(show(v), 100)}, must be a Product of exactly the non-unit factors")
+    if undecided:
+        rep.unknown("R13.1", construct(f, "summary"), f"{undecided} of {n_cfg} small-scope configurations do not reduce to a single outcome (idiom outside the folding rules)", loc(f))
+    elif problems:
+        rep.refuted("R13.1", construct(f, "summary"), "; ".join(problems[:4]), loc(f))
+    else:
+        rep.proven("R13.1", construct(f, "summary"), loc=loc(f), sample={"configurations": n_cfg, "rule": "Zero absorbs; One is dropped; 0 factors -> One(); 1 -> itself; else Product of exactly the rest"})
+    sa = SetAlg()
     x = var("%x")
-    filt = None
-    n_ret = 0
-    for p in paths:
-        if p.kind != "return":
-            continue
-        n_ret += 1
-        v = p.value
-        # find the filtered tuple F used on this path
-        for s in subterms((p.conds, v)):
-            if s[0] == "comp" and len(s[3]) == 1 and s[2] == s[3][0][0] and sa.strip(s[3][0][1]) == E and s[3][0][2]:
-                filt = s
-        if is_ctor(v, "Zero"):
-            if not any(c[0] == "any" for c in p.conds):
-                problems.append("returns Zero() on a path not guarded by any(factor == Zero())")
-        elif is_ctor(v, "One"):
-            pass
-        elif is_ctor(v, "Product"):
-            ex = dict(v[2]).get("expressions")
-            core = sa.strip(ex) if ex else None
-            if filt is None or core is None or sa.strip(core) != filt and sa.strip(core) != sa.strip(filt):
-                problems.append(f"Product(...) is not built from a permutation of the non-unit factors: {short(show(v), 160)}")
-    if filt is None:
-        problems.append("no filter `factor != One()` found")
-    else:
-        c = filt[3][0][2]
-        pat = filt[3][0][0]
-        if not (len(c) == 1 and c[0][0] == "ne" and ((c[0][1] == pat and is_ctor(c[0][2], "One")) or (c[0][2] == pat and is_ctor(c[0][1], "One")))):
-            problems.append(f"the unit filter is {short(show(c), 100)}, expected `factor != One()`")
-    if n_ret < 4:
-        problems.append(f"only {n_ret} return paths")
-    if problems:
-        rep.refuted("R13.1", construct(f, "summary"), "; ".join(problems), loc(f))
-    else:
-        rep.proven("R13.1", construct(f, "summary"), loc=loc(f), sample={"filter": show(filt), "returns": n_ret})
 
     # Sum.safe: returns its summand unchanged only for empty ranges or a Zero summand
     f = model.func(f"{DSL}.Sum.safe")
@@ -189,7 +205,7 @@ def r13_1b(model: Model, rep: Report) -> None:
     X = typed(ev, "expression", ("cls", EXPR))
     R = typed(ev, "ranges", ("iter", ("cls", f"{DSL}.Variable")))
     simp = typed(ev, "simplify", "bool")
-    paths = ev.run(f, {"expression": X, "ranges": R, "simplify": simp}, self_term=("ref", f"{DSL}.Sum"))
+    paths = dnf_paths(ev.run(f, {"expression": X, "ranges": R, "simplify": simp}, self_term=("ref", f"{DSL}.Sum")))
     classes = concrete_expression_classes(model)
     problems = []
     built = 0
@@ -229,7 +245,7 @@ def r13_2(model: Model, rep: Report) -> None:
     f = fr.find_method("simplify")
     ev = _ev(model, extra_prims={helper_q}, prim_methods={"__mul__", "__truediv__", "flip"})
     slf = typed(ev, "self", ("cls", fr.qname))
-    paths = ev.run(f, {}, self_term=slf)
+    paths = dnf_paths(ev.run(f, {}, self_term=slf))
     classes = concrete_expression_classes(model)
     num, den_ = ("attr", slf, "numerator"), ("attr", slf, "denominator")
     for pi, p in enumerate(paths):
@@ -392,7 +408,7 @@ def r13_3(model: Model, rep: Report) -> None:
     f = sm.find_method("simplify")
     ev = Evaluator(model, primitives={f"{DSL}.Sum.safe", f"{DSL}.Distribution.safe"}, prim_methods={"_new", "get_base"})
     slf = typed(ev, "self", ("cls", sm.qname))
-    paths = ev.run(f, {}, self_term=slf)
+    paths = dnf_paths(ev.run(f, {}, self_term=slf))
     sa = SetAlg()
     X = ("attr", slf, "expression")
     R = ("attr", slf, "ranges")
